@@ -99,8 +99,9 @@ def keep(d, name, props, note=""):
     r = check(d, props)
     dest = os.path.join(VERIF, "seeded", meta["property"], name)
     os.makedirs(dest, exist_ok=True)
-    shutil.copy(os.path.join(d, "patch.diff"), dest)
-    shutil.copy(os.path.join(d, "demo.py"), dest)
+    if os.path.abspath(d) != os.path.abspath(dest):      # re-keeping an already kept change: files are in place
+        shutil.copy(os.path.join(d, "patch.diff"), dest)
+        shutil.copy(os.path.join(d, "demo.py"), dest)
     head = sh(["git", "-C", "/repo", "rev-parse", "--short", "HEAD"])[1].strip()
     meta.update({"breaks_property": meta["property"], "origin": "independent sub-agent given only the property text and a scratch worktree",
                  "confirmed_by_me": {"repo_head": head, "suite": c["suite_tail"], "demo_exit_unchanged": c["demo_exit_unchanged"],
